@@ -8,6 +8,7 @@ package balancer
 
 import (
 	"bytes"
+	"context"
 	"encoding/binary"
 	"fmt"
 	"io"
@@ -19,6 +20,7 @@ import (
 	"runtime/debug"
 	"sort"
 	"sync"
+	"syscall"
 	"testing"
 	"time"
 
@@ -133,8 +135,18 @@ type verifC31Lis struct {
 	wg        sync.WaitGroup
 }
 
-func verifC31Listen(sc *verifC31Scn) (*verifC31Lis, error) {
-	ln, err := net.Listen("tcp", "127.0.0.1:0")
+func verifC31Listen(sc *verifC31Scn, rcvbuf int) (*verifC31Lis, error) {
+	lc := net.ListenConfig{}
+	if rcvbuf > 0 {
+		// a small receive buffer on the listening socket is inherited by the accepted ones: a
+		// connection that is not read then really blocks its writer after a few megabytes
+		lc.Control = func(network, address string, c syscall.RawConn) error {
+			return c.Control(func(fd uintptr) {
+				_ = syscall.SetsockoptInt(int(fd), syscall.SOL_SOCKET, syscall.SO_RCVBUF, rcvbuf)
+			})
+		}
+	}
+	ln, err := lc.Listen(context.Background(), "tcp", "127.0.0.1:0")
 	if err != nil {
 		return nil, err
 	}
@@ -300,6 +312,7 @@ type verifC31Opts struct {
 	writeTimeout time.Duration
 	stuckRecon   time.Duration
 	newEgress    bool
+	rcvbuf       int
 }
 
 type verifC31Scn struct {
@@ -319,6 +332,7 @@ type verifC31Scn struct {
 	gate     [3]bool
 	permit   [3]int
 	parked   [3]bool
+	parkedAt [3]time.Time
 	opened   bool // all gates open for good
 	pend     [3]int
 	lastN    [3]int
@@ -423,6 +437,9 @@ func (sc *verifC31Scn) process(ev string, b *pktBuffer, a []any) {
 		sc.lastN[s] = rm - ri
 		sc.lastRi[s] = ri
 		for sc.gate[s] && sc.permit[s] == 0 && !sc.opened {
+			if !sc.parked[s] {
+				sc.parkedAt[s] = time.Now()
+			}
 			sc.parked[s] = true
 			sc.cond.Wait()
 		}
@@ -662,7 +679,7 @@ func verifC31NewScn(no int, kind string, seed int64, o verifC31Opts) (*verifC31S
 	sc.cond = sync.NewCond(&sc.mu)
 	sc.emit("Reset", "scn", no, "kind", kind)
 	for s := 1; s <= 2; s++ {
-		l, err := verifC31Listen(sc)
+		l, err := verifC31Listen(sc, o.rcvbuf)
 		if err != nil {
 			return nil, err
 		}
@@ -954,7 +971,6 @@ func verifC31ListenerStall(sc *verifC31Scn) {
 	l.mu.Lock()
 	for _, u := range l.conns {
 		u.stalled = true
-		_ = u.c.SetReadBuffer(32 << 10)
 	}
 	l.mu.Unlock()
 	sc.mu.Lock()
@@ -968,6 +984,37 @@ func verifC31ListenerStall(sc *verifC31Scn) {
 	sc.waitFor(20*time.Second, func() bool { return sc.nPopErr[s] > before || sc.pend[s] == 0 }, nil)
 	sc.quiesce(1, 2)
 	sc.burst(1+sc.rnd.Intn(30), false)
+	sc.quiesce(1, 2)
+}
+
+// the write is held (a stalled upstream seen from the write's side) for longer than
+// WriteTimeout: the deadline armed for it has passed, so the write must fail and the sender
+// must reconnect and send the rest on the new connection
+func verifC31Overdue(sc *verifC31Scn) {
+	s := sc.prim()
+	sc.setGate(s, true)
+	sc.burst(40+sc.rnd.Intn(120), true)
+	if !sc.waitParked(s) {
+		sc.setGate(s, false)
+		sc.quiesce(1, 2)
+		return
+	}
+	sc.mu.Lock()
+	since := sc.parkedAt[s]
+	before := sc.nPopDone[s]
+	sc.mu.Unlock()
+	// the deadline was set before pop() was entered, i.e. before the sender parked; being later
+	// than planned only makes it more overdue
+	time.Sleep(time.Until(since.Add(sc.e.cfg.WriteTimeout + 1500*time.Millisecond)))
+	sc.mu.Lock()
+	if sc.parked[s] {
+		sc.emit("Overdue", "s", s)
+	}
+	sc.mu.Unlock()
+	sc.setGate(s, false)
+	sc.waitPopDone(s, before)
+	sc.quiesce(1, 2)
+	sc.burst(1+sc.rnd.Intn(60), true)
 	sc.quiesce(1, 2)
 }
 
@@ -1046,6 +1093,9 @@ func verifC31RunJob(j verifC31Job, seed int64) (*verifC31Scn, error) {
 	switch j.kind {
 	case "lstall":
 		o.writeTimeout = 6 * time.Second
+		o.rcvbuf = 16 << 10
+	case "overdue":
+		o.writeTimeout = 6 * time.Second
 	case "newegress":
 		o.newEgress = true
 	}
@@ -1071,6 +1121,8 @@ func verifC31RunJob(j verifC31Job, seed int64) (*verifC31Scn, error) {
 		verifC31ListenerStall(sc)
 	case "closemid":
 		verifC31CloseMid(sc)
+	case "overdue":
+		verifC31Overdue(sc)
 	case "beh":
 		verifC31Behaviour(sc, j.beh)
 	}
@@ -1105,6 +1157,9 @@ func TestVerifC31(t *testing.T) {
 	}
 	for i := 0; i < verifkit.EnvInt("VERIF_NLSTALL", 1); i++ {
 		jobs = append(jobs, verifC31Job{kind: "lstall"})
+	}
+	for i := 0; i < verifkit.EnvInt("VERIF_NOVERDUE", 1); i++ {
+		jobs = append(jobs, verifC31Job{kind: "overdue"})
 	}
 	for i := 0; i < verifkit.EnvInt("VERIF_NNEWEGRESS", 1); i++ {
 		jobs = append(jobs, verifC31Job{kind: "newegress"})
